@@ -111,3 +111,44 @@ def plasma(rec, vel=None):
         sp.append(Species(element(sym), q, Maxwellian(Constant3D(d * NU), Constant3D(float(rec["temp"][s])), v, MASS[sym] * AMU)))
     p.composition = sp
     return p
+
+
+def other_rates(rates):
+    """a provider with different numbers everywhere (for the 'provider' prior)"""
+    def bump(x):
+        if isinstance(x, dict):
+            return {k: bump(v) for k, v in x.items()}
+        if isinstance(x, list):
+            return [bump(v) for v in x]
+        return x + 1
+    return bump(rates)
+
+
+def other_plasma(rec):
+    """a plasma with every species present at other densities / temperatures (for the 'plasma' prior)"""
+    return plasma(dict(rec, ne=1, te=7, dens={s: 3 for s in rec["dens"]}, temp={s: 5 for s in rec["temp"]}))
+
+
+def prior_phase(rec, rates, model, evaluate, calls, ad, pl, beam=None):
+    """Bind the model to the prior provider / plasma, evaluate once (exceptions ignored), then bind to (ad, pl)."""
+    prior = rec.get("prior", "none")
+    if prior == "provider":
+        model.atomic_data = provider(other_rates(rates), Calls())
+        if beam is not None:
+            beam.atomic_data = model.atomic_data
+    elif prior == "plasma":
+        op = other_plasma(rec)
+        model.plasma = op
+        if beam is not None:
+            beam.plasma = op
+    if prior != "none":
+        try:
+            evaluate()
+        except Exception:          # noqa: BLE001
+            pass
+        if beam is not None:
+            beam.plasma = pl
+            beam.atomic_data = ad
+        model.plasma = pl
+        model.atomic_data = ad
+        del calls[:]
